@@ -248,8 +248,9 @@ def run_property(modname: str, tier: str, seed: int, replay: str | None = None) 
     }
     coverage.update(extra_cov)
     level = getattr(mod, "LEVEL", "proof")
-    common.write_evidence(prop, tier, seed, level, coverage, list(getattr(mod, "ASSUMPTIONS", [])),
-                          time.time() - t0, len(violations))
+    # a replay run re-examines one recorded case: it must not overwrite the record of the last full run
+    common.write_evidence(prop if not replay else prop + ".replay", tier, seed, level, coverage,
+                          list(getattr(mod, "ASSUMPTIONS", [])), time.time() - t0, len(violations))
 
     for line in known_lines:
         print(line)
